@@ -846,8 +846,22 @@ def backoff_facts(prog: Program) -> Tuple[Dict[str, Any], List[Problem]]:
             it = norm(heads[0].ast.iter)
             bound_ok = 'self.attempts' in it and any(k in it for k in ('range(', 'repeat(', 'islice('))
             rec['bound'] = it
-        ok = bound_ok and len(yields) == 1 and yields[0].id in cfg.reachable(heads[0], edge_ok=lambda e: e.label != 'exhausted') \
-            and heads[0].id in cfg.reachable(yields[0])
+        # exactly one delay per iteration, on every path through the loop body (`if cap: yield min(..) else: yield v` is one per path)
+        ok = bound_ok and bool(yields)
+        if ok:
+            h_ = heads[0]
+            in_loop = cfg.reachable(h_, edge_ok=lambda e: e.label != 'exhausted')
+            if not all(y.id in in_loop and h_.id in cfg.reachable(y) for y in yields):
+                ok = False
+            # at least one: the head cannot be reached again from the start of the body without passing a yield
+            starts = [e.dst for e in cfg.succ[h_.id] if e.label != 'exhausted' and e.label != 'exc']
+            if any(h_.id in (cfg.reachable(st_, avoid_nodes=yields) | {st_.id}) and st_ not in yields for st_ in starts):
+                ok = False
+            # at most one: after a yield no other yield is met before the next iteration starts
+            yid = {y.id for y in yields}
+            if any((cfg.reachable(y, avoid_nodes=[h_]) - {y.id}) & yid or y.id in {e.dst.id for e in cfg.succ[y.id] if e.dst is y} for y in yields):
+                ok = False
+        rec['yields_per_iteration'] = 1 if ok else '?'
         if any(isinstance(x, ast.YieldFrom) for n in yields for frag in node_exprs(n) for x in walk_no_defs(frag)):
             ok = False
         if not ok:
